@@ -314,4 +314,24 @@ theorem C17_declared_is_parameters (f : Path) (lines : List Chars) (modNames : L
         simp [argUsage] at ha
       · subst hb; rfl
 
+/-- the module-level names of a body are those of its parts, whatever the order of the parts -/
+theorem moduleLevelNames_append (a b : List Stmt) :
+    moduleLevelNames (a ++ b) = moduleLevelNames a ++ moduleLevelNames b := by
+  induction a with
+  | nil => rfl
+  | cons s ss ih => simp [moduleLevelNames, ih, List.append_assoc]
+
+/-- **C17 / C19 (a module-level name counts wherever it is bound).** The names a function's body scan treats as
+    module-level are computed from the WHOLE module before any function is visited: a name bound below the function
+    (a helper `def`, a class, an assignment, an import placed after it) is among them exactly as one bound above it. -/
+theorem C17_module_names_position_independent (above below : List Stmt) (n : String) :
+    n ∈ moduleLevelNames (above ++ below) ↔ n ∈ moduleLevelNames (below ++ above) := by
+  simp [moduleLevelNames_append, or_comm]
+
+/-- the analysis hands every function of the module that one list -/
+theorem C17_module_names_are_whole_module (stdlib : List String) (f : Path) (text : Chars) (body : List Stmt) :
+    (analyzeModule stdlib f text body).modNames = moduleLevelNames body ∧
+    (analyzeModule stdlib f text body).events =
+      cutAtPanic (visitStmts f (linesOf text) (moduleLevelNames body) body) := ⟨rfl, rfl⟩
+
 end PLS
